@@ -155,6 +155,8 @@ class QueueElement:
         if buf[0] == 0xFF:  # if it is a custom/user-defined data format
             self.data.append(buf)  # return the raw buffer as a value
         if buf[0] == 0x16:  # if it is service data
+            if len(buf) < 3:
+                return False  # too short to hold a 16-bit UUID; keep the raw bytes
             service_data_uuid = struct.unpack("<H", buf[1:3])[0]
             if service_data_uuid == TEMPERATURE_UUID:
                 service = TemperatureServiceData()
